@@ -1220,6 +1220,7 @@ impl<T> Arena<T> {
             r.fl_ok(),
     {
         proof {
+            lemma_empty_acyclic::<T>();
             lemma_empty_wf::<T>();
         }
         Self::default()
@@ -1239,6 +1240,7 @@ impl<T> Arena<T> {
             r.fl_ok(),
     {
         proof {
+            lemma_empty_acyclic::<T>();
             lemma_empty_wf::<T>();
         }
         Self {
@@ -1459,6 +1461,7 @@ impl<T> Arena<T> {
         self.first_free_slot = None;
         self.last_free_slot = None;
         proof {
+            lemma_empty_acyclic::<T>();
             lemma_empty_wf::<T>();
         }
     }
